@@ -40,6 +40,8 @@ namespace
     // when exactly that value comes back (any other wrong value keeps the plain signature)
     std::function<Expect(const Probe &)> known_wrong;
     std::string known_class;
+    // families whose answer is a block of values (grains): every slot of the block is judged; empty vector: nothing claimed at the probe
+    std::function<std::vector<LD>(const Probe &)> expect_all;
   };
 
   // ---------- area features ----------
@@ -544,6 +546,63 @@ namespace
           }
   }
 
+  // ---------- uniform grains: the z-x-z Euler angles (phi1, theta, phi2) stand for Rz(phi2) Rx(-theta) Rz(phi1); sizes as given, -1: equal shares ----------
+  void add_grains_cases(std::vector<Case> &out)
+  {
+    const double EUL[6][3] = {{0,0,0},{30,0,0},{0,40,0},{0,0,50},{10,20,30},{350,170,95}};
+    for (unsigned f = 0; f < 6; ++f) for (int sph = 0; sph < 2; ++sph) for (int ie = 0; ie < 6; ++ie) for (double size : {0.25, -1.0})
+            {
+              if (f >= 4 && sph) continue;
+              if (ie % 2 == 1 && size < 0) continue;
+              const double s = sph ? 1.0 : 1e5;
+              const char *FN[] = {"continental plate", "oceanic plate", "mantle layer", "plume", "subducting plate", "fault"};
+              Case c; c.family = "grains/uniform";
+              c.label = std::string(FN[f]) + (sph ? ", spherical" : ", cartesian") + ", Euler angles z-x-z [" + num(EUL[ie][0]) + "," + num(EUL[ie][1]) + "," + num(EUL[ie][2]) + "], grain size " + num(size);
+              c.spherical = sph;
+              const std::string gm = "\"grains models\":[{\"model\":\"uniform\",\"compositions\":[1],\"Euler angles z-x-z\":[[" + num(EUL[ie][0]) + "," + num(EUL[ie][1]) + "," + num(EUL[ie][2]) + "]],\"grain sizes\":[" + num(size) + "]}]";
+              std::function<bool(const Probe &)> inside;
+              if (f <= 2)
+                {
+                  c.world = world(globals(sph), {area_feature(f, sph, 2e4, gm)});
+                  c.probes = area_probes(sph, 0);
+                  inside = [](const Probe &p) { return p.depth >= 2e4 && p.depth <= FMAX; };
+                }
+              else if (f == 3)
+                {
+                  c.world = world(globals(sph), {"{\"model\":\"plume\",\"name\":\"P\",\"coordinates\":[[0,0],[0,0]],\"cross section depths\":[1e5,3e5],\"semi-major axis\":[" + num(2*s) + "," + num(2*s) + "],\"eccentricity\":[0,0],"
+                                                 "\"rotation angles\":[0,0],\"min depth\":1e5,\"max depth\":4e5," + gm + "}"});
+                  for (auto xy : std::vector<std::array<double,2>>{{{0, 0}}, {{0.5, 0}}, {{1.2, 0.4}}, {{2.5, 0.3}}})
+                    for (double d : {5e4, 1e5, 2e5, 3.5e5, 4.5e5})
+                      c.probes.push_back({xy[0]*s, xy[1]*s, d});
+                  inside = [=](const Probe &p) { return p.depth >= 1e5 && p.depth <= 4e5 && std::hypot(p.x, p.y) < 1.99*s; };
+                }
+              else
+                {
+                  const bool fault = f == 5;
+                  c.world = world(globals(false), {std::string("{\"model\":\"") + FN[f] + "\",\"name\":\"F\",\"coordinates\":[[0,-4e5],[0,0],[0,4e5]],\"dip point\":[5e6,0],\"segments\":[{\"length\":3e5,\"thickness\":[1e5],\"angle\":[90]}]," + gm + "}"});
+                  for (double x : {-9e4, -3e4, -1e3, 1e3, 4.5e4, 1.5e5}) for (double d : {1e4, 2.5e5}) for (double y : {0.0, 1.3e5, 2.5e5}) c.probes.push_back({x, y, d});
+                  inside = [=](const Probe &p) { return fault ? std::fabs(p.x) <= 5e4 - 1 : (p.x <= -1 && p.x >= -1e5 + 1); };
+                }
+              const LD a1 = EUL[ie][0] * PIl / 180, th = EUL[ie][1] * PIl / 180, a2 = EUL[ie][2] * PIl / 180;
+              c.request = {{{3,1,2}}};
+              c.expect = [](const Probe &) { return Expect(); };
+              c.expect_all = [=](const Probe &p)
+              {
+                std::vector<LD> v(20, 0.0L);
+                if (!inside(p)) return v;
+                auto mul = [](const LD A[9], const LD B[9], LD C[9]) { for (int i = 0; i < 3; ++i) for (int j = 0; j < 3; ++j) { C[3*i+j] = 0; for (int k = 0; k < 3; ++k) C[3*i+j] += A[3*i+k]*B[3*k+j]; } };
+                const LD Z2[9] = {cosl(a2), -sinl(a2), 0, sinl(a2), cosl(a2), 0, 0, 0, 1}, X[9] = {1, 0, 0, 0, cosl(th), sinl(th), 0, -sinl(th), cosl(th)}, Z1[9] = {cosl(a1), -sinl(a1), 0, sinl(a1), cosl(a1), 0, 0, 0, 1};
+                LD T[9], M[9];
+                mul(Z2, X, T); mul(T, Z1, M);
+                v[0] = v[1] = size < 0 ? 0.5L : static_cast<LD>(size);
+                for (int g = 0; g < 2; ++g) for (int k = 0; k < 9; ++k) v[2 + 9*g + k] = M[k];
+                return v;
+              };
+              c.abs_tol = 1e-12; c.rel_tol = 0;
+              out.push_back(c);
+            }
+  }
+
   // ---------- "negative means the global value" for slab models without a closed form: differential oracle ----------
   struct DiffCase { std::string label, world_a, world_b; std::vector<Probe> probes; };
   std::vector<DiffCase> diff_cases()
@@ -575,7 +634,7 @@ namespace
   {
     static std::vector<Case> q, t;
     std::vector<Case> &v = thorough ? t : q;
-    if (v.empty()) { add_area_cases(v, thorough); add_plume_cases(v); add_line_cases(v); add_velocity_cases(v); add_variable_range_cases(v); }
+    if (v.empty()) { add_area_cases(v, thorough); add_plume_cases(v); add_line_cases(v); add_velocity_cases(v); add_variable_range_cases(v); add_grains_cases(v); }
     return v;
   }
 
@@ -591,6 +650,28 @@ namespace
     uint64_t applies = 0;
     for (auto &p : c.probes)
       {
+        if (c.expect_all)
+          {
+            const std::vector<LD> want = c.expect_all(p);
+            const P3 q = query_point(c.spherical, p.x, p.y, p.depth);
+            const std::vector<double> out = w->properties(q, p.depth, c.request);
+            ctx.eval();
+            bool any = false;
+            for (size_t k = 0; k < want.size() && k < out.size(); ++k)
+              {
+                ctx.count(c_cmp);
+                if (want[k] != 0) any = true;
+                if (out.size() != want.size() || !(std::fabs(out[k] - static_cast<double>(want[k])) <= c.abs_tol + c.rel_tol * std::fabs(static_cast<double>(want[k]))))
+                  {
+                    std::vector<double> wd; for (LD x : want) wd.push_back(static_cast<double>(x));
+                    ctx.violation("C05/" + c.family + (k < 2 ? "/grain-size" : "/rotation-matrix"), JObj().str("what", "the model does not return its documented values").str("case", c.label).raw("natural_point_x_y_depth", "[" + num(p.x) + "," + num(p.y) + "," + num(p.depth) + "]")
+                                  .integer("slot", static_cast<long long>(k)).raw("expected", jarr(wd)).raw("returned", jarr(out)).str("world", c.world).done());
+                    return;
+                  }
+              }
+            if (any) { ++applies; ctx.count(c_in); }
+            continue;
+          }
         const Expect e = c.expect(p);
         if (!e.defined) { ctx.count(c_und); continue; }
         const P3 q = query_point(c.spherical, p.x, p.y, p.depth);
